@@ -143,6 +143,15 @@ def hash_seed_case():
     viol = []
     if len(set(outs.values())) != 1:
         viol.append({'property': 'C16', 'kind': 'random-walk-not-reproducible', 'detail': 'output depends on PYTHONHASHSEED', 'witness': wit})
+    # exactly N words for the round numbers a user asks for (powers of two, thousands)
+    for mode_ in ('random_walk', 'honeywords'):
+        for n_ in (1024, 4096, 5000):
+            o, e, rc = common.run_cli('pcfg_guesser.py', ['-r', name, '-m', mode_, '-n', str(n_)], stdin='pipe-open')
+            ls_ = o.decode('utf-8', 'replace').split('\n')
+            if ls_[-1:] != [''] or len(ls_) - 1 != n_ or any(l not in lang for l in ls_[:-1]):
+                viol.append({'property': 'C16', 'kind': 'not-in-language', 'limit': n_, 'mode': mode_, 'lines': len(ls_) - 1,
+                             'not_words': sorted({l for l in ls_[:-1] if l not in lang})[:4], 'witness': wit})
+                break
     bad = sorted({l for o in outs.values() for l in o.decode('utf-8', 'replace').split('\n') if l and l not in lang})
     if bad or any(o.count(b'\n') != 24 for o in outs.values()):
         viol.append({'property': 'C16', 'kind': 'not-in-language', 'not_words': bad[:4], 'lines': [o.count(b'\n') for o in outs.values()], 'witness': wit})
